@@ -320,7 +320,14 @@ def run(c, chk):
         sub15 = report.SubCheck(chk, 'R5.12', 'C15', only=('R15.1',))
         _c15x.run(c, sub15)
         sub15.done('comment tokens')
-    # ---- R5.11: the reader decodes what the writer wrote by the rules of the language
+    # ---- R5.15: an option is written commented out only when it has no value (rule R19.5 of C19): a value that is written as
+    # "# name=value" reads back as the declared default
+    if not isinstance(chk, report.SubCheck):
+        from . import c19 as _c19x
+        chk.rule('R5.15', 'a scalar that has a value is never written as a comment line (rule R19.5 of C19): the reader would restore the declared default in its place')
+        sub19 = report.SubCheck(chk, 'R5.15', 'C19', only=('R19.5',))
+        _c19x.run(c, sub19)
+        sub19.done('commented-out options')
     if not isinstance(chk, report.SubCheck):
         from . import c03 as _c03x
         chk.rule('R5.11', 'strings are decoded by the reference table (the rules of C03): every byte the printer writes raw between quotes reads back as itself')
